@@ -19,10 +19,11 @@ Definition as_val (t : tree) : option val :=
   | L l => match all_some (map as_Z l) with Some zs => Some (VL zs) | None => None end
   end.
 Definition as_row (t : tree) : option row := as_list_of as_val t.
+(* a size: None | n >= 1   (what cursor.fetchmany(0) does is DBAPI specific: sqlite3 returns every row) *)
 Definition as_optnat (t : tree) : option (option nat) :=
   match t with
   | L [] => Some None
-  | I z => if (0 <=? z)%Z then Some (Some (Z.to_nat z)) else None
+  | I z => if (1 <=? z)%Z then Some (Some (Z.to_nat z)) else None
   | _ => None
   end.
 Definition as_strategy (t : tree) : option strategy :=
